@@ -193,9 +193,12 @@ VizTags(e) ==
            \cup Tag(\E i \in dn : e.nodes[i].id \in D.full.ids /\ e.nodes[i].st # D.full.st[e.nodes[i].id], "C20 nodes-differ-from-diagram")
            \* hidden = deleted: as many as the protocol deletes, and only states that it can delete
            \cup Tag(inp.type = "exact" /\ hiddenN # 0, "C20 node-hidden-that-was-not-deleted")
-           \cup Tag(inp.type = "restricted" /\ hiddenN > delRestricted, "C20 node-hidden-that-was-not-deleted")
-           \cup Tag(inp.type = "restricted" /\ hiddenN < delRestricted, "C20 deleted-node-drawn")
-           \cup Tag(inp.type = "restricted" /\ ~SubBagV(hiddenSt, wideSt), "C20 node-hidden-that-was-not-deleted")
+           \* (restricted diagrams: the callbacks do not show which nodes a restriction drops; the count is inferred from the size of the layers,
+           \* which is only valid when every node is expanded in the layer below the one that created it -- not with long arcs, where a node may
+           \* wait in the pool and never belong to the layer being restricted)
+           \cup Tag(inp.type = "restricted" /\ ~I.long_arcs /\ hiddenN > delRestricted, "C20 node-hidden-that-was-not-deleted")
+           \cup Tag(inp.type = "restricted" /\ ~I.long_arcs /\ hiddenN < delRestricted, "C20 deleted-node-drawn")
+           \cup Tag(inp.type = "restricted" /\ ~I.long_arcs /\ ~SubBagV(hiddenSt, wideSt), "C20 node-hidden-that-was-not-deleted")
            \cup Tag(inp.type = "relaxed" /\ (hiddenN > Cardinality(D.gone) \/ ~SubBagV(hiddenSt, goneSt)), "C20 node-hidden-that-was-not-deleted")
            \cup Tag(inp.type = "relaxed" /\ hiddenN < Cardinality(D.gone) - D.nrecycled, "C20 deleted-node-drawn")))
 TViz ==
